@@ -355,9 +355,11 @@ def obligations(tier):
         obs.append(Ob('generic/g-decimal/%s/cp500' % direction, mk_h(lambda: list(choose('subset', dsub)), 'cp500', False, cfgs=GENERIC_DEC), 300,
                       'caller-supplied configuration with decimal fields (FIXED 12 / LLVAR): concrete decimal values incl. exponent forms (1E+2, 2.5E+3, 1E-3)', _funcs))
     from . import c12
-    obs.append(Ob('pds-packing/2-tags', c12.pack(['0023', '0158']), 120,
+    obs.append(Ob('pds-packing/2-tags', c12.pack(['0023', '0158'], greedy=True), 120,
                   'two PDSxxxx entries, every pair of value lengths 0..992: carriers hold tag(4) length(3) value in ascending order, at most 999 each, '
                   'filled greedily (the C12 obligation, here for the layout of the encoded message)', _funcs))
+    obs.append(Ob('pds-packing/3-tags', c12.pack(['0158', '0023', '0001'], greedy=True), 300,
+                  'three PDSxxxx entries (given out of order), every triple of value lengths 0..992: what follows a split is packed greedily again', _funcs))
     obs.append(Ob('de43-prefix-pattern/latin_1', de43_custom_pattern('latin_1'), 120,
                   'caller-supplied DE43 pattern that describes only the beginning of the field: the groups it defines are returned', _funcs))
     obs.append(Ob('pds-overflow/latin_1', pds_overflow('latin_1'), 120,
